@@ -393,11 +393,18 @@ fn try_render_aligned_statement_group(
                         after,
                         trailing: trailing_comment,
                     });
-                } else {
+                } else if let Some(content) =
+                    render_statement_line_content(ctx, root, syntax_plan, plan)
+                {
                     entries.push(AlignEntry::Line {
-                        content: render_statement_line_content(ctx, root, syntax_plan, plan)
-                            .unwrap_or_else(|| render_layout_node(ctx, root, node, plan)),
+                        content,
                         trailing: trailing_comment,
+                    });
+                } else {
+                    // the statement's own rendering already carries its trailing comment
+                    entries.push(AlignEntry::Line {
+                        content: render_layout_node(ctx, root, node, plan),
+                        trailing: None,
                     });
                 }
             }
